@@ -1313,3 +1313,68 @@ func encWanted(codec string) bool { return strHasPrefix(codec, "avc") || strHasP
 //@   ensures  as.SegmentTemplate.Timescale != nil && *as.SegmentTemplate.Timescale == se.mediaTimescale && as.SegmentTemplate.Duration == nil && as.SegmentTemplate.StartNumber == nil
 //@   assigns  as.SegmentTemplate.MultipleSegmentBaseType, as.SegmentTemplate.Media, as.SegmentTemplate.SegmentTimeline.S
 //@   allocates
+
+// ---------------------------------------------------------------------------
+// C15: representation-metadata cache and asset admission
+
+// writeToJSON: the cache file of a representation is (re)created from scratch (os.Create
+// truncates), named after the representation, and receives exactly the JSON of this RepData.
+//@ func (*RepData).writeToJSON
+//@   wiring
+//@   callsite Marshal requires marshalsThisRep: arg0.(*RepData) == rp
+//@   callsite Create requires replacesWholeFile: arg0 == gzipPath
+//@   callsite OpenFile requires noPartialOverwrite: false
+//@   callsite Write requires writesTheJSON: arg1 == data
+
+// sort.Strings permutes its argument (that the result is ordered is not needed here).
+//@ extern func sort.Strings(x)
+//@   ensures len(x) == old(len(x)) && forall i in [0, len(x)) :: exists j in [0, len(x)) :: x[i] == old(x[j])
+//@   assigns x[*]
+
+// setReferenceRep: the reference representation is one of the asset's representations, chosen
+// over the SORTED representation ids (not in map iteration order), video before audio.
+//@ func (*asset).setReferenceRep
+//@   requires a != nil && a.Reps != nil && (all k string :: haskey(a.Reps, k) ==> a.Reps[k] != nil)
+//@   ensures  result == nil ==> a.refRep != nil && (some k string :: haskey(a.Reps, k) && a.refRep == a.Reps[k])
+//@   ensures  a.Reps == old(a.Reps)
+//@   assigns  a.refRep
+//@   allocates
+//@   callsite Strings requires idsAreSorted: len(arg0) == len(keys)
+//@   loop 1 invariant fresh(keys) && forall i in [0, len(keys)) :: haskey(a.Reps, keys[i])
+//@   loop 2 invariant rangeidx >= 0 && forall i in [0, len(keys)) :: haskey(a.Reps, keys[i])
+//@   loop 3 invariant rangeidx >= 0 && forall i in [0, len(keys)) :: haskey(a.Reps, keys[i])
+
+// durOf: RepData.duration() as a specification function (same expression as its contract).
+func durOf(r *RepData) int {
+	return int(r.Segments[len(r.Segments)-1].EndTime - r.Segments[0].StartTime)
+}
+
+// contiguousUpTo: each of the first n segments has a positive duration and starts where the
+// previous one ends (the contiguity half of wfRep, which all lookup proofs assume of admitted
+// assets); recursive so that "every representation of the asset" needs no nested quantifier.
+func contiguousUpTo(r *RepData, n int) bool {
+	if n <= 0 {
+		return true
+	}
+	return contiguousUpTo(r, n-1) && r.Segments[n-1].StartTime < r.Segments[n-1].EndTime &&
+		(n-1 == 0 || r.Segments[n-1].StartTime == r.Segments[n-2].EndTime)
+}
+
+//@ recursive contiguousUpTo
+
+// consolidateAsset (asset admission): an asset is only admitted if its loop duration is a whole
+// number of milliseconds of the reference representation (loopExact) and every representation of
+// the reference content type, and every pre-encrypted one, has that same duration in ms.
+//@ func (*asset).consolidateAsset
+//@   wiring
+//@   requires a != nil && a.Reps != nil && (all k string :: haskey(a.Reps, k) ==> a.Reps[k] != nil && a.Reps[k].MediaTimescale > 0 && len(a.Reps[k].Segments) >= 1)
+//@   ensures  wholeMs: result == nil ==> a.refRep != nil && a.LoopDurMS*a.refRep.MediaTimescale == 1000*durOf(a.refRep)
+//@   ensures  contiguousTables: result == nil ==> (all k string :: haskey(a.Reps, k) ==> contiguousUpTo(a.Reps[k], len(a.Reps[k].Segments)))
+//@   ensures  sameDuration: result == nil ==> (all k string :: haskey(a.Reps, k) && (a.Reps[k].ContentType == a.refRep.ContentType || a.Reps[k].PreEncrypted) ==> 1000*durOf(a.Reps[k])/a.Reps[k].MediaTimescale == a.LoopDurMS)
+//@   loop 1 invariant refRep == a.refRep && refRep != nil && a.LoopDurMS == 1000*durOf(refRep)/refRep.MediaTimescale
+//@   loop 1 invariant all k string :: visited(k) ==> contiguousUpTo(a.Reps[k], len(a.Reps[k].Segments))
+//@   loop 2 invariant refRep == a.refRep && refRep != nil && a.LoopDurMS == 1000*durOf(refRep)/refRep.MediaTimescale && rep != nil
+//@   loop 2 invariant all k string :: visited(k) && a.Reps[k] != rep ==> contiguousUpTo(a.Reps[k], len(a.Reps[k].Segments))
+//@   loop 2 invariant !badPreEncrypted ==> (all k string :: visited(k) && a.Reps[k] != rep && (a.Reps[k].ContentType == refRep.ContentType || a.Reps[k].PreEncrypted) ==> 1000*durOf(a.Reps[k])/a.Reps[k].MediaTimescale == a.LoopDurMS)
+//@   loop 2 invariant rangeidx >= 0 && rangeidx <= len(rep.Segments) && contiguousUpTo(rep, rangeidx)
+//@   loop 1 invariant !badPreEncrypted ==> (all k string :: visited(k) && (a.Reps[k].ContentType == refRep.ContentType || a.Reps[k].PreEncrypted) ==> 1000*durOf(a.Reps[k])/a.Reps[k].MediaTimescale == a.LoopDurMS)
